@@ -241,6 +241,10 @@ impl RefModel {
                     }
                 }
                 for (i, o) in tx.outputs.iter().enumerate() {
+                    // OP_RETURN outputs are provably unspendable and never enter the ledger
+                    if o.script.first() == Some(&0x6a) {
+                        continue;
+                    }
                     l.insert(
                         (tx.txid, i as u32),
                         LedgerEntry {
